@@ -240,11 +240,18 @@ fn rat_offset<B: BallQ>(rng: &mut Rng) -> (V, Q) {
         (v, l)
     } else {
         let (v, l) = B::rat_vec(rng);
-        if rng.chance(1, 3) {
-            let k = small_q_pos(rng, 5, 3);
-            (vscale(&v, k), l * k)
-        } else {
-            (v, l)
+        match rng.below(12) {
+            0 | 1 | 2 | 3 => {
+                let k = small_q_pos(rng, 5, 3);
+                (vscale(&v, k), l * k)
+            }
+            // microscopic scenes: centre distances (and the radii derived from them) far below the
+            // square root of the element type's epsilon, direction arbitrary
+            4 => {
+                let k = Q::frac(1, 1i64 << *rng.pick(&[28u32, 30, 40]));
+                (vscale(&v, k), l * k)
+            }
+            _ => (v, l),
         }
     }
 }
@@ -323,11 +330,12 @@ fn gen_pair<B: BallQ>(rng: &mut Rng, mode: u64) -> (V, Q, V, Q, Q) {
     let (r1, r2) = match mode {
         0 => split(rng, len),
         1 => {
-            let t = tiny(rng);
+            // just overlapping / just apart, relative to the centre distance (which may be microscopic)
+            let t = tiny(rng) * len;
             split(rng, len + t)
         }
         2 => {
-            let t = tiny(rng);
+            let t = tiny(rng) * len;
             split(rng, len - t)
         }
         3 => (small_q_pos(rng, 8, 4), small_q_pos(rng, 8, 4)),
@@ -688,15 +696,22 @@ fn ball_float<T: Flt>(sub: &mut Sub, cfg: &Config, idx: u64) {
     let mut rng = Rng::for_case(&format!("ball_float/{}", T::NAME), cfg.case_seed(), idx);
     let three_d = idx % 2 == 1;
     let n = if three_d { 3 } else { 2 };
-    let kc: Vec<i64> = (0..3).map(|i| if i < n { rng.range_i64(-(1 << 17), 1 << 17) } else { 0 }).collect();
-    let ko: Vec<i64> = (0..3).map(|i| if i < n { rng.range_i64(-(1 << 16), 1 << 16) } else { 0 }).collect();
+    // every fourth pair of cases is a microscopic scene: the whole configuration scaled by 2^-20
+    // (exact in the type) with centres only a few grid steps apart, so that centre distances are far
+    // below the square root of the type's epsilon
+    let micro = (idx / 8) % 4 == 0;
+    let sc: f64 = if micro { 1.0 / (1u64 << 20) as f64 } else { 1.0 };
+    let g = |k: i64| g(k) * sc;
+    let (ra, rb) = if micro { (1i64 << 10, 1i64 << 6) } else { (1i64 << 17, 1i64 << 16) };
+    let kc: Vec<i64> = (0..3).map(|i| if i < n { rng.range_i64(-ra, ra) } else { 0 }).collect();
+    let ko: Vec<i64> = (0..3).map(|i| if i < n { rng.range_i64(-rb, rb) } else { 0 }).collect();
     let d2: i128 = ko.iter().map(|x| (*x as i128) * (*x as i128)).sum();
     let l = (d2 as f64).sqrt();
     // radius sum near / away from the centre distance
     let ks: i64 = match (idx / 2) % 4 {
         0 => (l * (1.0 + 1e-3 * (rng.unit_f64() - 0.5))).round() as i64,
         1 => (l * (0.2 + 1.6 * rng.unit_f64())).round() as i64,
-        _ => rng.range_i64(1, 1 << 17),
+        _ => rng.range_i64(1, ra),
     }
     .max(1);
     let k1 = rng.range_i64(0, ks);
@@ -706,7 +721,7 @@ fn ball_float<T: Flt>(sub: &mut Sub, cfg: &Config, idx: u64) {
     let (c2, c3) = v(&kc);
     let (p2, p3) = v(&kp);
     let (rs, r1, r2) = (T::of(g(ks)), T::of(g(k1)), T::of(g(k2)));
-    let detail = format!("{}D grid 2^-10: centre k={:?}, other/point k={:?}, radius k={} (split {} + {})", n, kc, kp, ks, k1, k2);
+    let detail = format!("{}D grid 2^-10{}: centre k={:?}, other/point k={:?}, radius k={} (split {} + {})", n, if micro { " scaled by 2^-20" } else { "" }, kc, kp, ks, k1, k2);
     let (sname, contains_api, coll_api, cv_api) = if three_d { ("Sphere", "Sphere::contains_point", "Sphere::collides_with_sphere", "Sphere::collision_vector_with_sphere") } else { ("Disk", "Disk::contains_point", "Disk::collides_with_disk", "Disk::collision_vector_with_disk") };
     let _ = sname;
     sub.saw(contains_api);
@@ -758,7 +773,7 @@ fn ball_float<T: Flt>(sub: &mut Sub, cfg: &Config, idx: u64) {
     // tangent after the move, within a derived tolerance
     let moved: Vec<f64> = (0..3).map(|i| g(ko[i]) + cv[i]).collect();
     let dist = (moved[0] * moved[0] + moved[1] * moved[1] + moved[2] * moved[2]).sqrt();
-    let scale = g(ks) + l / GRID + kc.iter().chain(kp.iter()).map(|x| g(x.abs())).fold(0.0, f64::max);
+    let scale = g(ks) + l / GRID * sc + kc.iter().chain(kp.iter()).map(|x| g(x.abs())).fold(0.0, f64::max);
     let tol = 256.0 * T::EPS * scale;
     if !((dist - g(ks)).abs() <= tol) {
         let vio = violation(PROP, sub, cv_api, T::NAME, "wrong_value", "not_tangent_after_move", format!("{}: vek returned {:?}; moved centre distance {:e}, expected r1+r2 = {:e} (tolerance {:e})", detail, cv, dist, g(ks), tol), cfg.case_seed(), idx);
